@@ -82,6 +82,7 @@ def run(rep, tier):
             explore(rep, m, f, fail, group)
         if group == "asconcrypt":
             rule_format(rep, m)
+        rule_loop_state(rep, m, group, build)
     rep.floor("C19.D1", 25)
     rep.floor("C19.D2", 15)
     rep.floor("C19.D3", 2)
@@ -479,3 +480,125 @@ def rule_format(rep, m):
     else:
         rep.instance(rid, len(rimg), {"header_bytes_checked": len(rimg),
                                       "magic": bytes(rimg[k] for k in sorted(rimg) if k < 10).decode("latin1")})
+
+
+# ---------------------------------------------------------------------------
+# external callees: (argument indices read through, argument indices written through); anything not listed is
+# treated as a reader of its pointer arguments (so an unknown callee can never create an alarm here)
+EXT_EFFECTS = {
+    "memset": ((), (0,)), "memcpy": ((1,), (0,)), "memmove": ((1,), (0,)), "strncpy": ((1,), (0,)), "strcpy": ((1,), (0,)),
+    "snprintf": ((2, 3, 4, 5), (0,)), "sprintf": ((1, 2, 3, 4), (0,)), "ascon_clean": ((), (0,)), "explicit_bzero": ((), (0,)),
+    "read": ((), (1,)), "fread": ((), (0,)), "fgets": ((), (0,)), "ascon_random": ((), (0,)), "ascon_pbkdf2": ((2, 4), (0,)),
+}
+
+
+def _effects(m):
+    """per defined function: list of (instruction, 'R'|'W', root) with root a global or a pointer parameter,
+    callee effects mapped through the arguments; plus the derived sets R, W and UR (read before any dominating write)"""
+    order = m.bottom_up()
+    summ = {}
+    for f in order:
+        if f.decl or not f.blocks:
+            continue
+        R = ptr.resolver(f)
+        eff = []
+
+        def roots(v):
+            if isinstance(v, dict):
+                return [("global", g) for g in ir.globals_in(v)]       # constant expression over a global's address
+            if not isinstance(v, str):
+                return []
+            if ir.is_global(v):
+                return [("global", v[1:])]
+            pv = R.resolve(v)
+            return [r for r in pv.roots if r[0] in ("global", "param")]
+        for i in f.insts():
+            if i.op == "load":
+                eff += [(i, "R", r) for r in roots(i.ops[0])]
+            elif i.op == "store":
+                eff += [(i, "W", r) for r in roots(i.ops[1])]
+            elif i.op in ("call", "invoke"):
+                cal = i.callee or ""
+                if cal.startswith("llvm.dbg") or cal.startswith("llvm.lifetime"):
+                    continue
+                if ptr.is_memset(i):
+                    eff += [(i, "W", r) for r in roots(i.ops[0])]
+                elif ptr.is_memcpy(i):
+                    eff += [(i, "W", r) for r in roots(i.ops[0])] + [(i, "R", r) for r in roots(i.ops[1])]
+                elif cal in summ:
+                    g = m.funcs[cal]
+                    cs = summ[cal]
+                    for kind, key in (("R", "UR"), ("W", "W")):
+                        for root in cs[key]:
+                            if root[0] == "global":
+                                eff.append((i, kind, root))
+                            elif root[1] in g.params:
+                                k = g.params.index(root[1])
+                                if k < len(i.ops):
+                                    eff += [(i, kind, r) for r in roots(i.ops[k])]
+                else:
+                    rd, wr = EXT_EFFECTS.get(cal, (None, ()))
+                    for k, a in enumerate(i.ops):
+                        rs = roots(a)
+                        if not rs:
+                            continue
+                        if k in wr:
+                            eff += [(i, "W", r) for r in rs]
+                        elif rd is None or k in rd:
+                            eff += [(i, "R", r) for r in rs]
+        W = set(r for _i, k, r in eff if k == "W")
+        Rd = set(r for _i, k, r in eff if k == "R")
+        UR = set()
+        for i, k, r in eff:
+            if k != "R":
+                continue
+            covered = any(k2 == "W" and r2 == r and i2 is not i and f.dominates(i2, i) for i2, k2, r2 in eff)
+            if not covered:
+                UR.add(r)
+        summ[f.name] = {"eff": eff, "W": W, "R": Rd, "UR": UR}
+    return summ
+
+
+def rule_loop_state(rep, m, group, build):
+    """D5: what main's per-file loop hands from one file to the next.  A global
+    that the processing of a file reads as it finds it (password, options) must
+    not be written by the processing of a file, unless the loop body itself
+    re-initialises it before that read - otherwise the second and later files of
+    one invocation are processed with different inputs than the first (for
+    example under an empty password)."""
+    rid = "C19.D5"
+    rep.rule(rid, "per-file processing does not modify the globals that the next file's processing starts from")
+    main = m.funcs.get("main")
+    if main is None or main.decl:
+        raise repo.AnalysisBroken("%s: main not found in %s" % (rid, group))
+    summ = _effects(m)
+    # natural loops of main: blocks that can reach themselves; calls inside
+    reach = {b.name: main.reachable_from(b) for b in main.blocks}
+    inloop = set(b.name for b in main.blocks if any(b.name in reach[s.name] for s in b.succs))
+    calls = [c for c in main.calls() if c.block.name in inloop and (c.callee or "") in summ]
+    if not calls:
+        rep.unproved_item(rid, "%s: no call to a tool function inside a loop of main" % group)
+        return
+    meff = summ["main"]["eff"]
+    n = 0
+    for c in calls:
+        for root in sorted(summ[c.callee]["UR"]):
+            if root[0] != "global":
+                continue
+            writers = [c2 for c2 in calls if root in summ[c2.callee]["W"]] + \
+                [i for i, k, r in meff if k == "W" and r == root and i.block.name in inloop and i.op != "call"]
+            if not writers:
+                n += 1
+                continue
+            # re-initialised by the loop body before this read?
+            reinit = any(w is not c and main.dominates(w, c) and w.block.name in inloop for w in writers)
+            if reinit:
+                n += 1
+                continue
+            w = writers[0]
+            rep.violation(rid, "%s:%s" % (c.callee, root[1].lstrip("@")), w.where(),
+                          "%s reads the global %s as the previous file's processing left it, and %s (called for every file in "
+                          "main's loop) writes it: the second and later files of one invocation are processed with a different "
+                          "value than the first" % (c.callee, root[1].lstrip("@"),
+                                                    w.callee if w.op == "call" else "main"), config=group)
+    rep.instance(rid, n, {"tool": group, "loop_calls": sorted(set(c.callee for c in calls))})
